@@ -6,7 +6,7 @@ D=$(mktemp -d /tmp/mutXXXX)
 cp -r /repo/src $D/src
 (cd $D && patch -p1 -s < $P)
 for pid in "$@"; do
-  VERIF_REPO_SRC=$D/src timeout 1500 python3-vt /verif/check.py $pid 2>&1 | cut -c1-260 | tail -6 || true
+  VERIF_REPO_SRC=$D/src timeout 1500 python3-vt /verif/check.py $pid 2>&1 | cut -c1-260 | tail -40 || true
   echo "exit=${PIPESTATUS[0]}"
 done
 rm -rf $D
